@@ -263,3 +263,157 @@ func trigWrap32(c *vkit.Case) {
 	}
 	grp.StopAndWait()
 }
+
+// slowScale (thorough only): the same promises on the time scale of seconds, which the other
+// groups never reach (idle reaping, long-interval code paths). Everything runs side by side, so
+// the group costs one long wait, not one per observation.
+//
+//	(a) Periodic / PeriodicOrTrigger with intervals of 1 s, 2 s, 5 s and an f that outlasts the
+//	    interval by 30 %: runs of one f never overlap, and a second and third run follow.
+//	(b) trigger functions left idle for 1 s, 2 s, 5 s, 10 s and then called once at a swept offset
+//	    (±60 us around the idle mark, hundreds of groups side by side): a run that began after the
+//	    call must follow.
+func slowScale(c *vkit.Case) {
+	r := c.R
+	marks := []time.Duration{time.Second, 2 * time.Second, 5 * time.Second, 10 * time.Second}
+	perMark := r.Scale(60, 400)
+	type trig struct {
+		grp   *xsync.Group
+		fn    func()
+		begun atomic.Int64
+		mark  time.Duration
+		off   time.Duration
+		seenB int64
+		pot   bool
+	}
+	var trigs []*trig
+	for _, m := range marks {
+		for i := 0; i < perMark; i++ {
+			t := &trig{grp: xsync.NewGroup(context.Background()), mark: m, off: time.Duration(c.Rand.Intn(120000)-60000) * time.Nanosecond, pot: i%4 == 3}
+			f := func(ctx context.Context) { t.begun.Add(1) }
+			if t.pot {
+				t.fn = t.grp.PeriodicOrTrigger(time.Hour, 0, f)
+			} else {
+				t.fn = t.grp.Trigger(f)
+			}
+			trigs = append(trigs, t)
+		}
+	}
+	// one warm-up call each, so that the idle period starts from a common instant
+	for _, t := range trigs {
+		t.fn()
+	}
+	time.Sleep(50 * time.Millisecond)
+	t0 := time.Now()
+	// (a) periodic functions that outlast their interval
+	type per struct {
+		grp      *xsync.Group
+		interval time.Duration
+		gauge    atomic.Int32
+		maxSeen  atomic.Int32
+		runs     atomic.Int64
+		kind     string
+	}
+	var pers []*per
+	for _, iv := range []time.Duration{time.Second, 2 * time.Second, 5 * time.Second} {
+		for k := 0; k < 2; k++ {
+			p := &per{grp: xsync.NewGroup(context.Background()), interval: iv}
+			f := func(ctx context.Context) {
+				n := p.gauge.Add(1)
+				for {
+					m := p.maxSeen.Load()
+					if n <= m || p.maxSeen.CompareAndSwap(m, n) {
+						break
+					}
+				}
+				select {
+				case <-time.After(iv + iv*3/10):
+				case <-ctx.Done():
+				}
+				p.gauge.Add(-1)
+				p.runs.Add(1)
+			}
+			if k == 0 {
+				p.kind = "Periodic"
+				p.grp.Periodic(iv, 0, f)
+			} else {
+				p.kind = "PeriodicOrTrigger"
+				p.grp.PeriodicOrTrigger(iv, 0, f)
+			}
+			pers = append(pers, p)
+		}
+	}
+	// (b) aimed single calls after the idle marks
+	var wg sync.WaitGroup
+	for _, t := range trigs {
+		t := t
+		wg.Add(1)
+		go func() {
+			defer wg.Done()
+			target := t0.Add(t.mark + t.off)
+			if d := time.Until(target) - 300*time.Microsecond; d > 0 {
+				time.Sleep(d)
+			}
+			for time.Now().Before(target) {
+				runtime.Gosched()
+			}
+			t.seenB = t.begun.Load()
+			t.fn()
+		}()
+	}
+	wg.Wait()
+	time.Sleep(300 * time.Millisecond)
+	lost := 0
+	for _, t := range trigs {
+		r.Eval(1)
+		if t.begun.Load() <= t.seenB {
+			// give it the benefit of a long wait before calling it lost: nothing else will trigger it
+			time.Sleep(2 * time.Second)
+			if t.begun.Load() <= t.seenB {
+				lost++
+				if lost <= 3 {
+					kind := "Trigger"
+					if t.pot {
+						kind = "PeriodicOrTrigger(1h)"
+					}
+					_, parked := loopParked()
+					if parked {
+						c.Violation("trigger-lost", fmt.Sprintf("slow-scale: the trigger function of one %s was left idle for %s and then called once (offset %s): no run of f began after that call within 2.3 s, and the function's goroutines are parked", kind, t.mark, t.off), nil)
+					} else {
+						r.Inconclusive("slow-scale: trigger not answered but goroutines not all parked")
+					}
+				}
+			}
+		}
+		r.Count("slow-scale", fmt.Sprintf("single trigger call after %s idle", t.mark), 1)
+	}
+	// (a): wait until the 5 s functions have had time for three runs (3 * 6.5 s)
+	if d := 21*time.Second - time.Since(t0); d > 0 {
+		time.Sleep(d)
+	}
+	for _, p := range pers {
+		r.Eval(1)
+		if p.maxSeen.Load() > 1 {
+			c.Violation("overlap", fmt.Sprintf("slow-scale: %s with interval %s and an f that takes 1.3 intervals: %d runs of f were in progress at the same time", p.kind, p.interval, p.maxSeen.Load()), nil)
+		}
+		need := int64(2)
+		if p.runs.Load() < need && p.gauge.Load() == 0 {
+			if vkit.CountGoroutines(func(g vkit.G) bool { return g.Has("xsync.(*Group)") && g.Has(p.kind) }) == 0 {
+				c.Violation("periodic-died", fmt.Sprintf("slow-scale: %s with interval %s ran %d times in 21 s and no goroutine of it exists any more", p.kind, p.interval, p.runs.Load()), nil)
+			}
+		}
+		r.Count("slow-scale", "long-interval periodic functions judged", 1)
+	}
+	for _, t := range trigs {
+		t.grp.Stop()
+	}
+	for _, p := range pers {
+		p.grp.Stop()
+	}
+	for _, t := range trigs {
+		t.grp.StopAndWait()
+	}
+	for _, p := range pers {
+		p.grp.StopAndWait()
+	}
+}
